@@ -14,6 +14,11 @@ import (
 	"verif/harness/vk"
 )
 
+// keep registers a returned result for later re-validation (set in init: the checker refers to check).
+var keep func(func() string)
+
+func init() { keep = checker.Keep }
+
 func TestMain(m *testing.M) { vk.Main(m, "C10") }
 
 type Case struct {
@@ -35,6 +40,7 @@ var checker = &vk.Checker[Case]{
 		"Non-trivial: l>=1 and prefix != 0 (upper half non-zero). Grid cases are distinct by construction; rapid cases are hashed only when h > 16.",
 	Check:    check,
 	Classify: classify,
+	KeepLen:  1500,
 	Hashed:   func(c Case) bool { return c.H > gridH },
 }
 
@@ -98,6 +104,15 @@ func checkWord(h, l int, prefix uint64) (uint64, *vk.Failure) {
 	}
 	if ps != bitsText(prefix, l) {
 		return want, vk.Failf("pathstr", "PathStr(%#x) = %q, want %q", want, ps, bitsText(prefix, l))
+	}
+	if l > 0 { // the returned string stays under watch while later calls produce more output
+		kept, expect := ps, bitsText(prefix, l)
+		keep(func() string {
+			if kept != expect {
+				return fmt.Sprintf("PathStr(%#x) returned %q, which now reads %q", want, expect, kept)
+			}
+			return ""
+		})
 	}
 	return want, nil
 }
@@ -224,6 +239,11 @@ func TestGrid(t *testing.T) {
 			}
 			if f != nil {
 				fail(Case{H: h, L: l, Prefix: vk.U64(prefix)}, f)
+			}
+			if evals&255 == 0 {
+				if kf := checker.RunKeepers(); kf != nil {
+					fail(Case{H: h, L: l, Prefix: vk.U64(prefix)}, kf)
+				}
 			}
 			if !first && !(prevW < w) {
 				fail(Case{H: h, L: prevL, Prefix: vk.U64(prevP), Has2: true, L2: l, Prefix2: vk.U64(prefix), Rel: "walk-successor"},
